@@ -25,7 +25,9 @@ const VB: &str = "BPAFMC_B";
 const LOOKALIKES: [&str; 4] = ["BPAFMC_", "BPAFMC_AA", "bpafmc_a", "XBPAFMC_A"];
 
 fn states() -> Vec<Option<Tok>> {
-    vec![None, Some(Tok::s("")), Some(Tok::s("7")), Some(Tok::s("x")), Some(Tok(vec![0xff]))]
+    // unset, empty, valid, invalid, non-UTF-8, and a number that converts but fails the guard of
+    // guarded items
+    vec![None, Some(Tok::s("")), Some(Tok::s("7")), Some(Tok::s("x")), Some(Tok(vec![0xff])), Some(Tok::s("11"))]
 }
 
 fn set_env(vars: &[String], st: &[Option<Tok>]) -> Env {
@@ -54,9 +56,13 @@ fn items(seed: u64) -> Vec<(Named, Vec<String>)> {
             let n1 = Names::both('a', "alpha").env(VA);
             let n2 = Names::both('a', "alpha").env(VA).env(VB);
             let n3 = Names::default().env(VA);
-            out.push((Named { names: n1, kind, hidden: false, ty, adjacent: false }, vec![VA.to_string()]));
-            out.push((Named { names: n2, kind, hidden: false, ty, adjacent: false }, vec![VA.to_string(), VB.to_string()]));
-            out.push((Named { names: n3, kind, hidden: false, ty, adjacent: false }, vec![VA.to_string()]));
+            out.push((Named { names: n1, kind, hidden: false, ty, adjacent: false, guarded: false }, vec![VA.to_string()]));
+            out.push((Named { names: n2, kind, hidden: false, ty, adjacent: false, guarded: false }, vec![VA.to_string(), VB.to_string()]));
+            out.push((Named { names: n3, kind, hidden: false, ty, adjacent: false, guarded: false }, vec![VA.to_string()]));
+            if ty == Ty::U32 {
+                // guarded: the variable may hold a number the guard rejects
+                out.push((Named { names: Names::both('a', "alpha").env(VA), kind, hidden: false, ty, adjacent: false, guarded: true }, vec![VA.to_string()]));
+            }
         }
     }
     out
@@ -64,6 +70,9 @@ fn items(seed: u64) -> Vec<(Named, Vec<String>)> {
 
 fn c18_alphabet(l: &Level) -> Vec<Tok> {
     let mut a = toks(&["v", "7", "x", "-z"]);
+    if l.named.iter().any(|n| n.guarded) {
+        a.push(Tok::s("--alpha=11"));
+    }
     for n in &l.named {
         if let Some(s) = n.names.shorts.first() {
             a.push(Tok::s(&format!("-{}", s)));
@@ -209,7 +218,7 @@ impl Check for C18 {
     }
     fn units(&self, tier: Tier, seed: u64) -> Vec<Value> {
         let mut out = vec![];
-        let neutral = Named { names: Names::both('s', "sw"), kind: Kind::Switch, hidden: false, ty: Ty::Os, adjacent: false };
+        let neutral = Named { names: Names::both('s', "sw"), kind: Kind::Switch, hidden: false, ty: Ty::Os, adjacent: false, guarded: false };
         for (it, vars) in items(seed) {
             out.push(Unit { level: Level { named: vec![it.clone()], tail: Tail::None, version: None, usage_fallback: false }, len: tier.pick(4, 5), vars: vars.clone() });
             out.push(Unit { level: Level { named: vec![neutral.clone(), it.clone()], tail: Tail::Pos(vec![PosItem { kind: PosKind::Opt, strict: Strict::Any }]), version: None, usage_fallback: false }, len: tier.pick(3, 4), vars: vars.clone() });
@@ -217,8 +226,8 @@ impl Check for C18 {
         // two env-backed items sharing nothing
         for k1 in [Kind::Switch, Kind::ArgReq, Kind::ArgMany] {
             for k2 in [Kind::ReqFlag, Kind::ArgOpt, Kind::ArgFallback] {
-                let a = Named { names: Names::both('a', "alpha").env(VA), kind: k1, hidden: false, ty: Ty::Os, adjacent: false };
-                let b = Named { names: Names::both('b', "beta").env(VB), kind: k2, hidden: false, ty: Ty::U32, adjacent: false };
+                let a = Named { names: Names::both('a', "alpha").env(VA), kind: k1, hidden: false, ty: Ty::Os, adjacent: false, guarded: false };
+                let b = Named { names: Names::both('b', "beta").env(VB), kind: k2, hidden: false, ty: Ty::U32, adjacent: false, guarded: false };
                 out.push(Unit { level: Level { named: vec![a, b], tail: Tail::None, version: None, usage_fallback: false }, len: tier.pick(3, 4), vars: vec![VA.to_string(), VB.to_string()] });
             }
         }
@@ -235,10 +244,10 @@ impl Check for C18 {
         run_states(&u, unit, ctx, Some((&env, &argv, case["help"].as_bool() == Some(true))));
     }
     fn rule(&self) -> String {
-        "definitions = every item kind (switch, flag, req_flag, count, argument required/optional/many/some/fallback/last; OsString and u32) backed by {names + one variable, names + two variables, variable only}, alone and beside a neutral switch and an optional positional, plus pairs of env-backed items; configurations = every state {unset, empty, valid, invalid, non-UTF-8} of every declared variable; inputs = every vector of the token tree; reference scanner with the extra rule 'no occurrence on the line -> one synthetic occurrence from the first set variable (flags: present iff set)'; plus: undeclared look-alike variables set/unset give identical outcomes, --help shows [env:NAME ...] state of declared variables only; state = (definition, environment, vector)".into()
+        "definitions = every item kind (switch, flag, req_flag, count, argument required/optional/many/some/fallback/last; OsString, u32 and guarded u32) backed by {names + one variable, names + two variables, variable only}, alone and beside a neutral switch and an optional positional, plus pairs of env-backed items; configurations = every state {unset, empty, valid, invalid, non-UTF-8, number rejected by the guard of guarded items} of every declared variable; inputs = every vector of the token tree; reference scanner with the extra rule 'no occurrence on the line -> one synthetic occurrence from the first set variable (flags: present iff set)'; plus: undeclared look-alike variables set/unset give identical outcomes, --help shows [env:NAME ...] state of declared variables only; state = (definition, environment, vector)".into()
     }
     fn bounds(&self, tier: Tier) -> Value {
-        json!({"vector_length": tier.pick("4 (single item), 3 (with neighbours)", "5 / 4"), "variables": "1..2 declared, 5 states each, 4 undeclared look-alikes"})
+        json!({"vector_length": tier.pick("4 (single item), 3 (with neighbours)", "5 / 4"), "variables": "1..2 declared, 6 states each, 4 undeclared look-alikes"})
     }
     fn assumptions(&self) -> Vec<String> {
         vec!["workers are single-threaded processes, so set_var/remove_var between cases is sound".into()]
